@@ -2,6 +2,7 @@
 //! the checks and prints one canonical result per line.
 mod util;
 mod path;
+mod gc;
 
 fn main() {
     let args: Vec<String> = std::env::args().collect();
@@ -9,6 +10,7 @@ fn main() {
     let rest: Vec<String> = args.iter().skip(2).cloned().collect();
     let code = match cmd {
         "path" => path::main(&rest),
+        "gc" => gc::main(&rest),
         _ => {
             eprintln!("usage: th <engine> <args..>");
             2
